@@ -5,11 +5,16 @@
     entity that carries its callback;
   * a command whose target is gone runs `setup` then `cleanup` (so whatever payload it carries is released through the
     same count discipline as a normal run) and pushes nothing that could run a system;
+  * for every step of every execution: no body starts for a system that is not alive when the step begins
+    (`no_run_for_dead_target`), and at quiescence every payload — also those aimed at dead targets — has been dropped
+    (`stale_payloads_released`, from the payload accounting `PayInv`);
   * registration / revocation / triggers naming dead entities change no table of any other key (see also C06);
   * the model's `step` is total — every lookup is an `Option` match, there is no panic constructor; the "does not
     panic" half of the property therefore rests on the correspondence check (`catch_unwind` around every scenario).
 -/
 import Cobweb.Proofs.CtlStep
+import Cobweb.Proofs.Counts
+import Cobweb.Theorems.C05
 
 namespace Cobweb.C18
 
@@ -78,6 +83,66 @@ theorem step_total (p : Prog) (h : Hist) (s : St) (hne : s.stack ≠ []) : ∃ s
   cases hs : s.stack with
   | nil => exact absurd hs hne
   | cons f rest => exact ⟨_, rfl⟩
+
+/-! ### whole executions -/
+
+/-- What one tick adds to the control trace: events none of which is a `body` or an error outcome — or exactly `enter sys`,
+    `body sys` of a system that was alive when the step began. -/
+theorem tick_events (p : Prog) (hh : Hist) {s s' : St} (c : Ctl s) (ht : tick p hh s = some s') : GoodEvs s s' ∨ BodyEvs s s' := by
+  unfold tick at ht
+  split at ht
+  · rename_i s'' hs
+    simp only [Option.some.injEq] at ht; subst ht
+    unfold step at hs
+    cases hst : s.stack with
+    | nil => rw [hst] at hs; cases hs
+    | cons f rest =>
+      rw [hst] at hs
+      simp only [Option.some.injEq] at hs; subst hs
+      by_cases hl : ∃ sys k idx, f = .runnerLookup sys k idx
+      · obtain ⟨sys, k, idx, rfl⟩ := hl
+        rcases good_lookup ({ s with stack := rest } : St) sys k idx (ctl_not_bad c hst) with g | g
+        · exact Or.inl g.1
+        · exact Or.inr g
+      · exact Or.inl (good_runFrame p hh ({ s with stack := rest } : St) f (ctl_not_bad c hst) (fun a b d hx => hl ⟨a, b, d, hx⟩))
+  · split at ht
+    · rename_i op _
+      simp only [Option.some.injEq] at ht; subst ht
+      exact Or.inl (good_startTop ({ s with topIdx := s.topIdx + 1 } : St) _ _)
+    · cases ht
+
+/-- **No system runs on behalf of a dead target**: in every execution, a step starts no body of a system that is not alive
+    when the step begins — whatever command, reaction, postponed entry or replay named it. -/
+theorem no_run_for_dead_target {p : Prog} {h : Hist} {s s' : St} (hr : Reach p h ({} : St) s) (ht : tick p h s = some s')
+    (sys : Nat) (hd : s.alive sys = false) : nBody sys s' = nBody sys s := by
+  have c := ctl_reach p h ctl_default hr
+  rcases tick_events p h c ht with ⟨evs, he, hq⟩ | ⟨sys0, obs, he, hal, _⟩
+  · simp only [nBody, he]
+    exact countP_quiet sys evs (ct s) (fun e h => (hq e h).2)
+  · have hne : sys0 ≠ sys := by intro h; rw [h, hd] at hal; cases hal
+    simp only [nBody, he, List.countP_cons, isBodyOf]
+    simp [hne]
+
+/-- **Whatever payload a stale operation carries is released**: at quiescence every payload that was sent — to live or dead
+    targets alike — has been dropped exactly as often as it was sent (payload accounting, `C05`). -/
+theorem stale_payloads_released {p : Prog} {h : Hist} {s : St} (hr : Reach p h ({} : St) s) (hq : s.stack = []) (pid : Nat) :
+    s.trace.count (.dropPayload pid) = s.trace.count (.send pid) :=
+  C05.all_payloads_dropped_at_quiescence hr hq pid
+
+/-- Non-vacuity: a system is spawned, despawned, and then sent a system event with payload 9: no body ever runs and the
+    payload has been dropped once at quiescence. -/
+def staleHist : Hist :=
+  { op := fun t _ => if t < 3 then some .acts else none,
+    act := fun t i _ => match t, i with
+      | 0, 0 => some (.spawnSys 0 false)
+      | 1, 0 => some (.despawn 0)
+      | 2, 0 => some (.sysEvent 0 0 9)
+      | _, _ => none }
+
+example : (exec (fun _ _ _ => none) staleHist 200 {}).stack = [] ∧ (exec (fun _ _ _ => none) staleHist 200 {}).alive 0 = false ∧
+    nBody 0 (exec (fun _ _ _ => none) staleHist 200 {}) = 0 ∧
+    (exec (fun _ _ _ => none) staleHist 200 {}).trace.count (.send 9) = 1 ∧
+    (exec (fun _ _ _ => none) staleHist 200 {}).trace.count (.dropPayload 9) = 1 := by decide
 
 /-- Non-vacuity: a dead target in a concrete state. -/
 example : doRunnerLookup ({} : St) 3 .plain 0 = (({} : St).emit (.abortNoEntity 3)).push (abortFrames 3 .plain) :=
